@@ -66,9 +66,11 @@ pub fn eval_motion(p: &[V3; 3], motion: &Iso, which: usize, delta: f64) -> (Vec<
     match (&out, cls) {
         (Outcome::Panic(m), _) => fails.push((format!("C17/panic/{cls}"), m.clone())),
         (Outcome::Ok(f), "exact") => {
+            // rounding of the image points (1e-16 relative) is amplified by 1/height for a nearly collinear triple
+            let h0 = norm(cross(sub(p[1], p[0]), sub(p[2], p[0]))) / norm(sub(p[1], p[0]));
             for i in 0..3 {
                 let e = dist(f.apply(p[i]), q[i]);
-                if !(e <= 1e-9 * scale_p) {
+                if !(e <= 1e-9 * scale_p * (1.0 + 1e-6 / h0)) {
                     fails.push(("C17/does-not-map-points".to_string(), format!("point {} is mapped {e:e} m away from its image", i + 1)));
                     break;
                 }
@@ -290,10 +292,59 @@ pub fn run(_ctx: &Ctx) -> Report {
             }
         }
     }
+    // --- threshold sweep: rotation angles a ladder magnitude away from 0 and from a half turn, perturbations a ladder
+    // magnitude below / above the 5 mm tolerance, and triangles of ladder height (nearly collinear)
+    {
+        let lad = crate::common::ladder::ladder(&["frame.rs"]);
+        let axes: [V3; 4] = [[0.0, 0.0, 1.0], [1.0, 0.0, 0.0], [1.0, 1.0, 0.0], [0.3, -0.5, 0.8]];
+        let ssizes = [lad.len(), 4, 5];
+        let sn = par::product(&ssizes);
+        let srep = par::run(sn, |idx, r| {
+            let mut ix = [0usize; 3];
+            par::decode(idx, &ssizes, &mut ix);
+            let d = lad[ix[0]];
+            let ax = axes[ix[1]];
+            let shift = [0.3, -1.2, 0.45];
+            let pi = std::f64::consts::PI;
+            let (tri, motion, which, delta, tag): ([V3; 3], Iso, usize, f64, &str) = match ix[2] {
+                0 => (tris[1], Iso::new(rot_axis(ax, d), shift), 0, 0.0, "angle-near-zero"),
+                1 => (tris[1], Iso::new(rot_axis(ax, pi - d), shift), 0, 0.0, "angle-below-half-turn"),
+                2 => (tris[0], Iso::new(rot_axis(ax, -pi + d), [0.0; 3]), 0, 0.0, "angle-above-minus-half-turn"),
+                3 => {
+                    // 5 mm -+ d, on each side, on a rotating choice of image point
+                    let below = ix[1] % 2 == 0;
+                    if !(d >= 1e-7 && d <= 2e-3) {
+                        return;
+                    }
+                    (tris[1], Iso::new(rot_axis(axes[3], 0.7), shift), ix[1] % 3, if below { 0.005 - d } else { 0.005 + d } * if ix[1] / 2 == 0 { 1.0 } else { -1.0 }, "tolerance-edge")
+                }
+                _ => {
+                    // a triangle whose third point is d above the line through the other two
+                    if !(d >= 1e-9) {
+                        return;
+                    }
+                    ([[0.0, 0.0, 0.0], [1.0, 0.0, 0.0], [0.4, d, 0.0]], Iso::new(rot_axis(ax, 0.9), shift), 0, 0.0, "nearly-collinear")
+                }
+            };
+            let (fails, sig) = eval_motion(&tri, &motion, which, delta);
+            r.states += 1;
+            r.transitions += 1;
+            r.sig(format!("{tag}:{sig}"));
+            for (k, dd) in fails {
+                // a nearly collinear triple may legitimately be refused as collinear
+                if tag == "nearly-collinear" && k.starts_with("C17/congruent-rejected") && sig.contains("colinear") {
+                    continue;
+                }
+                r.fail(format!("{k}/{tag}"), n + 1000 + idx, json!({"kind":"motion-explicit","triangle": tri.iter().map(|p| nums(p)).collect::<Vec<_>>(), "motion": crate::common::stack::iso_json(&motion), "which": which, "delta": delta}), dd);
+            }
+        });
+        rep.merge(srep);
+        rep.set("threshold_sweep", json!({"ladder_values": lad.len(), "kinds": ["angle-near-zero", "angle-below-half-turn", "angle-above-minus-half-turn", "tolerance-edge", "nearly-collinear"]}));
+    }
     rep.traces_validated = rep.transitions;
     rep.rule = "triangles {unit, scalene, thin 1 mm, 10 m out, 1 km out} x rigid motions (4 axes x {0,30,90,179,180,-120 deg} x 3 translations) x perturbation of \
                 each image point along an edge by {0, +-1, +-4, +-4.9, +-5.1, +-6, +-50 mm} + degenerate triples (collinear source/target, coincident, scaled) + \
-                Frame::translation + forward_transformed on robots x poses x small frames; signature = (perturbation class, outcome)".into();
+                Frame::translation + forward_transformed on robots x poses x small frames; threshold sweep: rotation angle = ladder magnitude / half turn -+ ladder magnitude about 4 axes, perturbation 5 mm -+ ladder magnitude, triangles of ladder height; signature = (perturbation class, outcome)".into();
     rep.set("axes", json!({"triangles": tris.len(), "motions": mots.len(), "deltas_m": DELTAS.to_vec()}));
     rep
 }
@@ -307,6 +358,11 @@ pub fn replay(case: &Value) -> Vec<String> {
             as_num(&case["delta"]),
         )
         .0,
+        "motion-explicit" => {
+            let t = case["triangle"].as_array().unwrap();
+            let v = |x: &Value| -> V3 { let a = x.as_array().unwrap(); [as_num(&a[0]), as_num(&a[1]), as_num(&a[2])] };
+            eval_motion(&[v(&t[0]), v(&t[1]), v(&t[2])], &crate::common::stack::iso_from_json(&case["motion"]), case["which"].as_u64().unwrap() as usize, as_num(&case["delta"])).0
+        }
         "degenerate" => eval_degenerate(case["which"].as_u64().unwrap() as usize).0,
         "forward_transformed" => eval_forward_transformed(
             case["robot"].as_u64().unwrap() as usize,
